@@ -91,6 +91,10 @@ def num_to_str(n: Optional[float], fmt: str) -> Optional[str]:
         # the resolution of the format first (so fields never reach 60) and the
         # sign applies to the whole value.
         units_per_whole = _SEXAGESIMAL_UNITS[fraction_length]
+        if math.isinf(abs(n) * units_per_whole):
+            # too large to be split into sexagesimal fields (the product
+            # overflows); plain notation is valid number text for any format
+            return "%.0f" % n
         units = int(math.floor(abs(n) * units_per_whole + 0.5))
         w, f = divmod(units, units_per_whole)
         sign = "-" if n < 0 else ""
